@@ -22,7 +22,8 @@ def main():
     try:
         for p in props:
             t0 = time.time()
-            c = subprocess.run([os.path.join(V, 'check'), p], capture_output=True, text=True, cwd=V)
+            c = subprocess.run([os.path.join(V, 'check'), p], capture_output=True, text=True, cwd=V,
+                               env=dict(os.environ, VERIF_EVIDENCE_DIR=os.path.join(V, 'out', 'seed_evidence')))
             lines = [l for l in c.stdout.split('\n') if l.startswith(('VIOLATION', 'UNDECIDED', 'KNOWN-FINDING', p + ':'))]
             res[p] = {'exit': c.returncode, 'lines': lines[:6], 'wall_s': round(time.time() - t0, 1)}
             print(p, 'exit', c.returncode)
